@@ -78,7 +78,7 @@ def run(ctx):
                                           'forward (tokenizing never ends / position goes backwards)'
                             % cst, construct=cons)
             else:
-                why = _width_lemma(f, c, pos, pe)
+                why = _width_lemma(f, c, pos, pe) or _callee_end_lemma(meths, f, c, pos, pe)
                 if why:
                     ctx.holds('R11a', m, c, why, construct=cons)
                 else:
@@ -663,6 +663,55 @@ def _block_of(st):
         if isinstance(lst, list) and any(s is st for s in lst):
             return lst
     return [st]
+
+
+def _callee_end_lemma(meths, f, call, pos, pe):
+    """the end position is an item of the tuple returned by another reader method: that method's
+    returned expression, with its parameters replaced by the arguments of the call, minus `pos`
+    must be a positive constant plus non-negative terms (lengths, the end offset of a regex match)"""
+    if not isinstance(pe, ast.Name):
+        return None
+    try:
+        cases = [c for c in symex.Walker(is_sink=lambda n: n is call).run(f)]
+    except symex.TooManyPaths:
+        return None
+    if not cases:
+        return None
+    for cs in cases:
+        d = symex.item_def(unparse(symex.subst(pe, cs.env)), cs.env)
+        if d is None:
+            return None
+        _tag, idx, n_items, src = d
+        if not (isinstance(src, ast.Call) and isinstance(src.func, ast.Attribute) and
+                isinstance(src.func.value, ast.Name) and src.func.value.id == 'self' and src.func.attr in meths):
+            return None
+        g = meths[src.func.attr]
+        gp = [a.arg for a in g.args.args][1:]
+        ren = dict(zip(gp, src.args))
+        ren.update((k.arg, k.value) for k in src.keywords if k.arg)
+        try:
+            rcs = symex.Walker(want_returns=True, pure=('end', 'start', 'group', 'span')).run(g)
+        except symex.TooManyPaths:
+            return None
+        n_ok = 0
+        for rc in rcs:
+            if rc.kind != 'return' or not isinstance(rc.sub, ast.Tuple) or len(rc.sub.elts) != n_items:
+                return None
+            e = rc.sub.elts[idx]
+            if isinstance(e, ast.Constant) and e.value is None:
+                continue            # the "not found" result: the caller raises instead of building a token
+            e2 = symex.subst(e, ren)
+            try:
+                cst, terms = affine.diff(e2, symex.subst(pos, cs.env), affine.single_assign_env(f))
+            except affine.NotAffine:
+                return None
+            if cst < 1 or not all(v > 0 and (k.endswith('.end()') or k.startswith('len(')) for k, v in terms.items()):
+                return None
+            n_ok += 1
+        if not n_ok:
+            return None
+    return 'end position returned by self.%s(): start + %s (a positive constant plus lengths / a match end)' % (
+        src.func.attr, affine.show((cst, terms)))
 
 
 def _width_lemma(f, call, pos, pe):
